@@ -24,6 +24,9 @@
    "not truncated": at end-of-stream exactly P         C01_rcv_eof_complete
    nothing after end-of-stream, WHATEVER arrives       C01_rcv_closed_frozen   (no hypothesis on events)
    slices are fresh under the length bound             C01_rcv_slices_fresh
+   all of the above with pure ACKs / window updates /  C01_rcv_inv_run_2, C01_rcv_stream_prefix_2,
+     RSTs (no data, no FIN) at ANY sequence number       C01_rcv_reads_prefix_2, C01_rcv_no_empty_chunk_2,
+     (ev_ok2; what a real peer sends after its FIN)      C01_rcv_eof_complete_2
    the slice hypothesis matters (mislabelled bytes     C01_rcv_needs_slice_refuted
      of P are delivered out of place)
    Examples (hypotheses satisfiable, run across the 2^32 wrap, out-of-order + overlapping segments,
@@ -91,6 +94,43 @@ Theorem C01_rcv_needs_slice_refuted :
     ~ exists rest, concat (reads_run t es) ++ rest = P.
 Proof. exact rcv_needs_slice_refuted. Qed.
 Print Assumptions C01_rcv_needs_slice_refuted.
+
+(* ---- general form: segments carrying neither data nor FIN (pure ACKs, window updates, RSTs) may
+   have ANY sequence number (ev_ok2); the theorems above are the special case ev_ok -> ev_ok2 ---- *)
+Theorem C01_rcv_inv_run_2 : forall P irs rd0 t es,
+  zlen P < 2^31 -> rcv_inv P irs rd0 t -> Forall (ev_ok2 P irs) es ->
+  rcv_inv P irs (rd0 ++ concat (reads_run t es)) (run t es).
+Proof. exact rcv_inv_run2. Qed.
+Print Assumptions C01_rcv_inv_run_2.
+
+Theorem C01_rcv_stream_prefix_2 : forall P irs rd0 t es,
+  zlen P < 2^31 -> rcv_inv P irs rd0 t -> Forall (ev_ok2 P irs) es ->
+  exists n, 0 <= n <= zlen P /\
+    rcvNxt (RC (run t es)) = seq_of irs (if rclosed (RC (run t es)) then n + 1 else n) /\
+    (rclosed (RC (run t es)) = true -> n = zlen P) /\
+    rd0 ++ concat (reads_run t es) ++ concat (rcvList (run t es)) = firstn (Z.to_nat n) P.
+Proof. exact rcv_stream_prefix2. Qed.
+Print Assumptions C01_rcv_stream_prefix_2.
+
+Theorem C01_rcv_reads_prefix_2 : forall P irs rd0 t es,
+  zlen P < 2^31 -> rcv_inv P irs rd0 t -> Forall (ev_ok2 P irs) es ->
+  exists rest, rd0 ++ concat (reads_run t es) ++ rest = P.
+Proof. exact rcv_reads_prefix2. Qed.
+Print Assumptions C01_rcv_reads_prefix_2.
+
+Theorem C01_rcv_no_empty_chunk_2 : forall P irs rd0 t es,
+  zlen P < 2^31 -> rcv_inv P irs rd0 t -> Forall (ev_ok2 P irs) es ->
+  Forall (fun c : list Z => c <> []) (reads_run t es) /\
+  Forall (fun c : list Z => c <> []) (rcvList (run t es)).
+Proof. exact rcv_no_empty_chunk2. Qed.
+Print Assumptions C01_rcv_no_empty_chunk_2.
+
+Theorem C01_rcv_eof_complete_2 : forall P irs rd0 t es,
+  zlen P < 2^31 -> rcv_inv P irs rd0 t -> Forall (ev_ok2 P irs) es ->
+  rclosed (RC (run t es)) = true ->
+  rd0 ++ concat (reads_run t es) ++ concat (rcvList (run t es)) = P.
+Proof. exact rcv_eof_complete2. Qed.
+Print Assumptions C01_rcv_eof_complete_2.
 
 (* ---------------------------------------------------------------- send direction
    (Proofs/TcpSndInvP.v, TcpSndLoopP.v, TcpSndP.v).  W = the concatenation of the accepted
